@@ -3,6 +3,7 @@
   positions), and its preservation by every operation body of Demeter.Squeeth under exact arithmetic.
 -/
 import Proofs.C14.Window
+import Proofs.Lemmas.SqueethLong
 import Mathlib.Tactic.Linarith
 import Mathlib.Tactic.NormNum
 import Mathlib.Tactic.Ring
@@ -537,7 +538,47 @@ theorem updateGo_inv (e : Env) (hp : 0 ≤ twap e .osqth) (ks : List Nat) (s : S
         · unfold liquidateOp; exact atomic_inv _ _ h (liquidateBody_inv e s k hp h)
         · intro t ht; exact ih t ht
 
-theorem stepBody_inv (e : Env) (s : State) (op : Op) (hp : 0 ≤ twap e .osqth) (h : Inv s) :
+/-- what the long side asks of the pool's data: a non-negative price and a fee rate of at most 100 % -/
+def PoolOk (e : Env) : Prop := 0 ≤ e.uniPrice ∧ e.uniFee ≤ 1
+
+theorem inv_of_wallet {s s' : State} (h : Inv s) (hf : s'.vaults = s.vaults ∧ s'.positions = s.positions ∧ s'.maxId = s.maxId)
+    (hw : AllVals (fun b : Rat => 0 ≤ b) s'.wallet) : Inv s' := by
+  refine ⟨hw, ?_, ?_⟩
+  · rw [hf.1]; exact h.2.1
+  · rw [hf.2.1]; exact h.2.2
+
+theorem buySqueethOp_inv (e : Env) (s : State) (o q : Option Rat) (hpool : PoolOk e) (h : Inv s) :
+    Inv (buySqueethOp NumCtx.exact e s o q).st := by
+  cases herr : (buySqueethOp NumCtx.exact e s o q).err with
+  | some er => rw [buy_rejected _ e s o q (by rw [herr]; simp)]; exact h
+  | none =>
+    obtain ⟨a, _, h0 | ⟨ha, hp, hf, hc, w1, _, _, hd, hw, _, _⟩⟩ := buy_ok_exact e s o q herr
+    · rw [h0.2]; exact h
+    · apply inv_of_wallet h (buy_frame _ e s o q)
+      rw [hw]
+      apply credit_nonneg _ _ _ (debit_nonneg _ _ _ _ hd h.1)
+      have h1 : 0 ≤ 1 - e.uniFee := by linarith [hpool.2]
+      have h2 : 0 ≤ 1 / e.uniPrice := by apply div_nonneg <;> linarith [hpool.1]
+      have e1 : buyCost e a - buyCost e a * e.uniFee = buyCost e a * (1 - e.uniFee) := by ring
+      rw [e1]
+      exact mul_nonneg (mul_nonneg hc h1) h2
+
+theorem sellSqueethOp_inv (e : Env) (s : State) (o q : Option Rat) (hpool : PoolOk e) (h : Inv s) :
+    Inv (sellSqueethOp NumCtx.exact e s o q).st := by
+  cases herr : (sellSqueethOp NumCtx.exact e s o q).err with
+  | some er => rw [sell_rejected _ e s o q (by rw [herr]; simp)]; exact h
+  | none =>
+    obtain ⟨a, _, h0 | ⟨ha, ha0, w1, _, _, hd, hw, _, _⟩⟩ := sell_ok_exact e s o q herr
+    · rw [h0.2]; exact h
+    · apply inv_of_wallet h (sell_frame _ e s o q)
+      rw [hw]
+      apply credit_nonneg _ _ _ (debit_nonneg _ _ _ _ hd h.1)
+      have h1 : 0 ≤ 1 - e.uniFee := by linarith [hpool.2]
+      have e1 : a - a * e.uniFee = a * (1 - e.uniFee) := by ring
+      rw [e1]
+      exact mul_nonneg (mul_nonneg ha0 h1) hpool.1
+
+theorem stepBody_inv (e : Env) (s : State) (op : Op) (hp : 0 ≤ twap e .osqth) (hq : op.isTrade = true → PoolOk e) (h : Inv s) :
     Inv (stepBody NumCtx.exact e s op).st := by
   cases op with
   | openMint d m vk pos => exact openBody_inv e s d m vk pos h
@@ -557,6 +598,8 @@ theorem stepBody_inv (e : Env) (s : State) (op : Op) (hp : 0 ≤ twap e .osqth) 
       by_cases ht : p.transferred = true
       · simp only [ht, if_true]; exact h
       · simp only [ht, if_false]; exact (uniRedeem_inv e s pos true h).1
+  | buy o q => exact buySqueethOp_inv e s o q (hq rfl) h
+  | sell o q => exact sellSqueethOp_inv e s o q (hq rfl) h
 
 end Squeeth
 end Demeter
